@@ -182,8 +182,7 @@ class Output(BaseOutput):
         if self.instance_variables is not None:
             for var, conf in self.instance_variables.items():
                 v = nc.createVariable(var, conf["encoding"]["datatype"], instance_dim)
-                for att, value in conf["attributes"].items():
-                    setattr(v, att, value)
+                self.set_attributes(v, conf["attributes"])
 
         if self.particle_variables is not None:
             for var, conf in self.particle_variables.items():
@@ -202,19 +201,21 @@ class Output(BaseOutput):
                         ("particle",),
                     )
 
-                for att, value in conf["attributes"].items():
-                    # Replace string "reference_time" with actual reference time
-                    if "reference_time" in value:
-                        new_value = value.replace(
-                            "reference_time", str(self.timer.reference_time)
-                        )
-                        setattr(v, att, new_value)
+                self.set_attributes(v, conf["attributes"])
 
         if self.global_attributes is not None:
             for att, value in self.global_attributes.items():
                 setattr(nc, att, value)
 
         return nc
+
+    def set_attributes(self, v: Any, attributes: dict[str, Any]) -> None:
+        """Set the attributes of an output variable"""
+        for att, value in attributes.items():
+            # Replace string "reference_time" with actual reference time
+            if isinstance(value, str) and "reference_time" in value:
+                value = value.replace("reference_time", str(self.timer.reference_time))
+            setattr(v, att, value)
 
     def write(self, state: State) -> None:
         """Write output instance variables to a (multi-)file
